@@ -16,21 +16,21 @@ import (
 // under perturbed schedules; the same scenarios under the race detector).
 
 type c11Case struct {
-	Doc    []byte        `json:"doc"`
-	Op     string        `json:"op"` // text json yaml dryrun walk mkdir verify
-	Exts   []string      `json:"exts,omitempty"`
-	Strict bool          `json:"strict,omitempty"`
-	Pre    []ops.FSEntry `json:"pre,omitempty"`
-	Faults ops.Faults    `json:"faults"`
-	Cancel ops.Cancel    `json:"cancel"`
-	Sched  ops.Sched     `json:"sched"`
-	Race   bool          `json:"race,omitempty"`
-	Blocks int           `json:"blocks,omitempty"`  // root blocks in the document
-	Failing int          `json:"failing,omitempty"` // blocks made to fail
-	Entry  string        `json:"entry,omitempty"`   // "" = md, "root" = From-Root with WithMassive
-	NilCtx bool          `json:"nilCtx,omitempty"`  // WithMassive(nil): documented to mean context.Background()
-	Inodes int           `json:"inodes,omitempty"`  // mkdir: the target file system has room for Inodes-1 entries (ENOSPC beyond)
-	SingleP bool         `json:"singleP,omitempty"` // the worker process was started with GOMAXPROCS=1 ("every schedule" includes a one-CPU machine)
+	Doc     []byte        `json:"doc"`
+	Op      string        `json:"op"` // text json yaml dryrun walk mkdir verify
+	Exts    []string      `json:"exts,omitempty"`
+	Strict  bool          `json:"strict,omitempty"`
+	Pre     []ops.FSEntry `json:"pre,omitempty"`
+	Faults  ops.Faults    `json:"faults"`
+	Cancel  ops.Cancel    `json:"cancel"`
+	Sched   ops.Sched     `json:"sched"`
+	Race    bool          `json:"race,omitempty"`
+	Blocks  int           `json:"blocks,omitempty"`  // root blocks in the document
+	Failing int           `json:"failing,omitempty"` // blocks made to fail
+	Entry   string        `json:"entry,omitempty"`   // "" = md, "root" = From-Root with WithMassive
+	NilCtx  bool          `json:"nilCtx,omitempty"`  // WithMassive(nil): documented to mean context.Background()
+	Inodes  int           `json:"inodes,omitempty"`  // mkdir: the target file system has room for Inodes-1 entries (ENOSPC beyond)
+	SingleP bool          `json:"singleP,omitempty"` // the worker process was started with GOMAXPROCS=1 ("every schedule" includes a one-CPU machine)
 }
 
 func init() { registerReplay("c11", c11Check) }
